@@ -6,7 +6,7 @@
    n <> 0 for n >= 1, a-m <=? b-m = a <=? b, =? decides equality.  Arrays are
    lists of rows (row = channel, entries = samples); `rect x` = all rows have
    the width of the first one. *)
-From Coq Require Import ZArith List Bool Lia Ring Field QArith.
+From Coq Require Import ZArith List Bool Lia Ring Field QArith Qcanon.
 From IBL.lib Require Import PyInt.
 From IBL.C05 Require Import Model Proofs Run.
 Import ListNotations.
@@ -235,7 +235,14 @@ Theorem C05_adc_delay_table : forall ver c, (0 <= c < 384)%Z ->
 Proof. exact adc_closed_form. Qed.
 Print Assumptions C05_adc_delay_table.
 
-(* ---- non-vacuity: the model run on concrete inputs (Q instance of Run.v) ----- *)
+(* ---- non-vacuity ------------------------------------------------------------- *)
+(* the carrier hypotheses hold for the canonical rationals (Leibniz equality) *)
+Example C05_ordered_field_inhabited :
+  ordered_field Qc 0%Qc 1%Qc Qcplus Qcmult Qcminus Qcdiv Qcopp Qcinv qcleb qceqb.
+Proof. exact ordered_field_Qc. Qed.
+Print Assumptions C05_ordered_field_inhabited.
+
+(* the model run on concrete inputs (Q instance of Run.v) *)
 Local Open Scope Z_scope.
 
 (* three channels, groups {0,2} and {1}, operator 'average' and 'median' *)
